@@ -331,8 +331,11 @@ static UBASE_UNUSED bool STRUCTURE##_flush_input(struct upipe *upipe)       \
         return false;                                                       \
     upipe_dbg_va(upipe, "deleting %u still-born urefs",                     \
                  STRUCTURE##_from_upipe(upipe)->NB_UREFS);                  \
+    /* the maximum length is a setting, not part of what is flushed */      \
+    unsigned int max_urefs = STRUCTURE##_from_upipe(upipe)->MAX_UREFS;      \
     STRUCTURE##_clean_input(upipe);                                         \
     STRUCTURE##_init_input(upipe);                                          \
+    STRUCTURE##_from_upipe(upipe)->MAX_UREFS = max_urefs;                   \
     return true;                                                            \
 }
 
